@@ -614,4 +614,128 @@ def run(chk) -> None:
 
 from ..selftest import Variant  # noqa: E402
 
-VARIANTS: List[Variant] = []
+LEXER = "src/sqlfluff/core/parser/lexer.py"
+BASE = "src/sqlfluff/core/rules/base.py"
+PLACEHOLDER = "src/sqlfluff/core/templaters/placeholder.py"
+CONFIG_INFO = "src/sqlfluff/core/rules/config_info.py"
+
+VARIANTS: List[Variant] = [
+    # ---- behaviour-preserving edits: the check must stay quiet -------------------------
+    Variant(
+        "quiet-persist-flag-through-a-local", LINTER,
+        "                if apply_fixes:\n",
+        "                write_back = apply_fixes\n                if write_back:\n",
+        "QUIET", None, "the gate of persist_tree spelled through a local copy of the flag",
+    ),
+    Variant(
+        "quiet-lint-passes-the-flag-explicitly", CLI,
+        "                retain_files=False,\n            )\n\n    # Output the final stats",
+        "                retain_files=False,\n                apply_fixes=False,\n            )\n\n    # Output the final stats",
+        "QUIET", None, "lint passes apply_fixes=False instead of relying on the default",
+    ),
+    Variant(
+        "quiet-block-stack-through-alias", LEXER,
+        "        self._stack.append(uuid)\n",
+        "        stack = self._stack\n        stack.append(uuid)\n",
+        "QUIET", None, "reviewed writer of the reviewed cell, spelled through an alias",
+    ),
+    Variant(
+        "quiet-out-lists-through-aliases", BASE,
+        "        new_lerrs.append(lerr)\n        new_fixes.extend(res.fixes)\n",
+        "        errs_out, fixes_out = new_lerrs, new_fixes\n        errs_out.append(lerr)\n        fixes_out.extend(res.fixes)\n",
+        "QUIET", None, "reviewed out-parameters written through tuple-unpacked aliases",
+    ),
+    Variant(
+        "quiet-violations-copied-differently", LINTER,
+        "        violations: list[SQLBaseError] = list(parsed.templating_violations)\n",
+        "        violations: list[SQLBaseError] = [*parsed.templating_violations]\n",
+        "QUIET", None, "another way of copying the caller's list before extending it",
+    ),
+    # ---- R32a ---------------------------------------------------------------------------
+    Variant(
+        "apply-fixes-defaults-to-true", LINTER,
+        "        apply_fixes: bool = False,\n",
+        "        apply_fixes: bool = True,\n",
+        "R32a", "persist_tree", "`sqlfluff lint` does not pass the flag: it would rewrite the files it lints",
+    ),
+    Variant(
+        "persist-gate-dropped", LINTER,
+        "                if apply_fixes:\n                    num_tmp_prs_errors",
+        "                if True:\n                    num_tmp_prs_errors",
+        "R32a", "persist_tree",
+    ),
+    Variant(
+        "lint-command-persists-result", CLI,
+        "                retain_files=False,\n            )\n\n    # Output the final stats",
+        "                retain_files=False,\n            )\n            result.persist_changes(formatter=formatter)\n\n    # Output the final stats",
+        "R32a", "cli/commands.py::lint",
+    ),
+    Variant(
+        "parse-string-dumps-rendered-sql", LINTER,
+        "        rendered = self.render_string(in_str, fname, config, encoding)\n        violations += rendered.templater_violations\n",
+        "        rendered = self.render_string(in_str, fname, config, encoding)\n        with open(fname + \".rendered\", \"w\", encoding=encoding) as fh:\n            fh.write(rendered.templated_variants[0].templated_str)\n        violations += rendered.templater_violations\n",
+        "R32a", "parse_string", "a new writer on the parse path",
+    ),
+    Variant(
+        "render-file-normalises-newlines-on-disk", LINTER,
+        "        raw_file, config, encoding = self.load_raw_file_and_config(fname, root_config)\n        # Render the file\n",
+        "        raw_file, config, encoding = self.load_raw_file_and_config(fname, root_config)\n        __import__(\"pathlib\").Path(fname).write_text(self._normalise_newlines(raw_file), encoding=encoding)\n        # Render the file\n",
+        "R32a", "render_file", "the input file itself is rewritten by lint and render",
+    ),
+    # ---- R32b ---------------------------------------------------------------------------
+    Variant(
+        "rulepack-memoised-on-the-linter-class", LINTER,
+        "    def get_rulepack(self, config: Optional[FluffConfig] = None) -> RulePack:\n        \"\"\"Get hold of a set of rules.\"\"\"\n        rs = get_ruleset()\n        # Register any user rules\n        for rule in self.user_rules:\n            rs.register(rule)\n        cfg = config or self.config\n        return rs.get_rulepack(config=cfg)\n",
+        "    _packs: dict = {}\n\n    def get_rulepack(self, config: Optional[FluffConfig] = None) -> RulePack:\n        \"\"\"Get hold of a set of rules.\"\"\"\n        rs = get_ruleset()\n        # Register any user rules\n        for rule in self.user_rules:\n            rs.register(rule)\n        cfg = config or self.config\n        key = str(cfg.get(\"rule_allowlist\"))\n        if key not in self._packs:\n            self._packs[key] = rs.get_rulepack(config=cfg)\n        return self._packs[key]\n",
+        "R32b", "get_rulepack", "rule objects (and their reference map, which allowed_rule_ref_map mutates) shared by every later file with the same selection",
+    ),
+    Variant(
+        "config-info-memoised", CONFIG_INFO,
+        "def get_config_info() -> dict[str, ConfigInfo]:\n",
+        "@__import__(\"functools\").lru_cache(maxsize=None)\ndef get_config_info() -> dict[str, ConfigInfo]:\n",
+        "R32b", "get_config_info", "a new process cache whose (mutable) answer is handed to every caller",
+    ),
+    Variant(
+        "param-style-table-extended-at-run-time", PLACEHOLDER,
+        "            live_context[\"__bind_param_regex\"] = regex.compile(\n                live_context[\"param_regex\"]\n            )\n",
+        "            KNOWN_STYLES[\"custom\"] = regex.compile(live_context[\"param_regex\"])\n            live_context[\"__bind_param_regex\"] = KNOWN_STYLES[\"custom\"]\n",
+        "R32b", "KNOWN_STYLES", "one file's param_regex becomes a selectable style for every later file",
+    ),
+    Variant(
+        "lint-counter-global", LINTER,
+        "        # Sort out config, defaulting to the built in config if no override\n",
+        "        global _strings_linted\n        _strings_linted = globals().get(\"_strings_linted\", 0) + 1\n        # Sort out config, defaulting to the built in config if no override\n",
+        "R32b", "_strings_linted",
+    ),
+    Variant(
+        "block-map-cleared-by-second-writer", LEXER,
+        "    block_stack = BlockTracker()\n    templated_file_slices = templated_file.sliced_file\n",
+        "    block_stack = BlockTracker()\n    BlockTracker._stack.append(uuid4())\n    templated_file_slices = templated_file.sliced_file\n",
+        "R32b", "_iter_segments", "a second writer of reviewed state, outside the reviewed functions",
+    ),
+    # ---- R32c ---------------------------------------------------------------------------
+    Variant(
+        "templating-violations-extended-in-place", LINTER,
+        "        violations: list[SQLBaseError] = list(parsed.templating_violations)\n",
+        "        violations: list[SQLBaseError] = parsed.templating_violations\n",
+        "R32c", "lint_parsed", "the copy is dropped: `violations += ...` now grows the ParsedString's own list, so linting the same ParsedString again reports everything twice",
+    ),
+    Variant(
+        "non-fixing-rules-pruned-from-the-pack", LINTER,
+        "                        and not crawler.is_fix_compatible\n                    ):\n                        continue\n",
+        "                        and not crawler.is_fix_compatible\n                    ):\n                        rule_pack.rules.remove(crawler)\n                        continue\n",
+        "R32c", "lint_fix_parsed", "the caller's pack loses rules: the alternate variants of the file are linted with fewer rules",
+    ),
+    Variant(
+        "templated-errors-removed-in-place", LINTER,
+        "            else:\n                # If it's another type, just keep it. (E.g. SQLParseError from\n                # malformed \"noqa\" comment).\n                result.append(e)\n        return result\n",
+        "            else:\n                # If it's another type, just keep it. (E.g. SQLParseError from\n                # malformed \"noqa\" comment).\n                result.append(e)\n        linting_errors.clear()\n        linting_errors.extend(result)\n        return result\n",
+        "R32c", "remove_templated_errors",
+    ),
+    Variant(
+        "ref-map-keys-dropped-for-noqa", LINTER,
+        "        # Return a new map with only the excluded rules\n",
+        "        for k in [k for k, v in output_map.items() if not v & noqa_set]:\n            del reference_map[k]\n        # Return a new map with only the excluded rules\n",
+        "R32c", "allowed_rule_ref_map", "reviewed (function, parameter) row, but ... a delete: still the reviewed row -> must be caught by how",
+    ),
+]
